@@ -300,7 +300,7 @@ def _nat5():
 
 
 NATIVE = [("native:raising-finalizer-leaves-no-instance", _nat5), ("native:command-and-stop-requested-in-the-same-tick-leaves-no-instance", _nat4), ("native:user-started-command-then-stop-leaves-no-instance", _nat3), ("native:invalid-arguments-then-stop-leaves-no-instance", _nat), ("native:stop-at-any-tick-of-back-to-back-commands-leaves-no-instance", _nat2)]
-BOUNDED = ["one native scenario on the real engine (command with rejected arguments, then Stop): bounded, not counted"]
+BOUNDED = ["five native scenarios on the real engine (raising finalizer, command and Stop in the same tick, user-started command then Stop, rejected arguments then Stop, Stop at every tick of back-to-back commands): bounded, not counted"]
 
 
 # ---- (e) Stop / Restart gate the interpreter between the cancellation of all commands and their completion -------------------------
